@@ -8,10 +8,10 @@ BASE = ("Trusted: Lean 4.33.0 kernel and the standard axioms each theorem's audi
         "differential run of model, Spec oracle and the real code on generated cases (sampled, not proved). Spec writers render "
         "MySQL's formats from documentation. Not verified: Go runtime and libraries, the driver Breeze0806/mysql beyond its contract.")
 P = {
- 'C01': ('refinement theorem (Lean) + differential correspondence', 'Refinement of the parser state machine to the abstract binlog grammar, proved in Lean for all decoded histories; byte level by decode∘write theorems per event kind; real parseEvents and real Stream() compared with model and Spec on generated histories.', 'partial facet: TCP path and pacing are sampled (stream level), not modelled'),
+ 'C01': ('refinement theorem (Lean) + differential correspondence', 'Refinement of the parser state machine to the abstract binlog grammar, proved in Lean for all decoded histories and, at the byte level, for every well-formed history of the Spec master from every boundary of the log (C01_fidelity_bytes, C01_fidelity_bytes_resume: parseEvents fed exactly the served bytes delivers exactly the expected transactions); real parseEvents and real Stream() compared with model and Spec on generated histories.', 'partial facet: TCP path and pacing are sampled (stream level), not modelled'),
  'C02': ('invariant/refinement proofs over the decoded-event state machine (Lean)', 'Delivery only at commit points, atomic grouping, rollback-empty, ignorable-event invariance and case-insensitive boundary recognition proved for every event sequence / every casing; correspondence exhaustive over unit sequences up to the bound.', ''),
  'C03': ('label-chain and resume theorems (Lean) + differential correspondence', 'Labels chain and every end label is a resume point: proved over the decoded machine for every history; every delivered label actually used as a restart point against the real code.', ''),
- 'C04': ('induction over attempt sequences (Lean) + fault enumeration against the real code', 'Kept position is the boundary after the last accepted transaction for every fault point and kind in the model; exactly-once over any sequence of failed attempts; real parser/Stream driven through every fault kind.', 'partial facet: pacing is runtime; the driver contract is assumed'),
+ 'C04': ('induction over attempt sequences (Lean) + fault enumeration against the real code', 'Kept position is the boundary after the last accepted transaction for every handler, every cut of the served byte stream and every ending (C04_bytes_outcome / _resume_pos); exactly-once over any sequence of failed attempts at the decoded and at the byte level (C04_bytes_exactly_once); real parser/Stream driven through every fault kind.', 'partial facet: pacing is runtime; the driver contract is assumed'),
  'C05': ('reachability invariants of a finite-control protocol model (Lean, decide +kernel per step) + scheduled runs of the real Stream()', 'Termination, no leftover goroutine, Error() never blocks: invariants over all interleavings of the abstract reader/parser/caller protocol; the real code is driven through scripted schedules.', 'partial facets: Go scheduler, wall-clock time, data races (race detector run in the thorough tier; driver Close()/readPacket race is a known finding)'),
  'C06': ('protocol invariants (Lean) + fault enumeration against the real Stream()', 'Stop reason published before channels close; Error() class determined by the cause for every stop point and interleaving of the model.', 'partial facet: timing is sampled'),
  'C07': ('call-trace theorem + dump packet round trip (Lean) + wire observation', 'Exactly one checksum announcement followed by exactly one dump request carrying id, offset, file name, flags 0; decode∘encode of the request for all ids/offsets/names.', 'the driver writes the packet: contract validated on the wire'),
